@@ -356,6 +356,7 @@ pub struct ScResult {
 	distinct_serial: usize,
 	distinct_final: usize,
 	max_points: usize,
+	completed_level: Option<usize>,
 	cap_hit: Option<String>,
 	findings: Vec<Finding>,
 	machinery: Option<String>,
@@ -367,7 +368,7 @@ fn explore_scenario(root: &str, base: &Snapshot, sc: &Scenario, bound: Option<us
 	let perms = permutations(sc);
 	let serial: Vec<Exec> = par_map(&perms, workers(), |i, order| run_serial(&format!("{}/c20-{}-s{}", root, sc.name, i), base, order));
 	let mut serial_set: Vec<(u64, &Exec, &Vec<Unit>)> = vec![];
-	let mut res = ScResult { schedules: 0, serial_orders: perms.len(), distinct_serial: 0, distinct_final: 0, max_points: 0, cap_hit: None, findings: vec![], machinery: None, sample: None };
+	let mut res = ScResult { schedules: 0, serial_orders: perms.len(), distinct_serial: 0, distinct_final: 0, max_points: 0, completed_level: None, cap_hit: None, findings: vec![], machinery: None, sample: None };
 	for (e, o) in serial.iter().zip(perms.iter()) {
 		if !e.panics.is_empty() {
 			res.findings.push(Finding { key: format!("C20/panic/serial/{}", sc.name), what: format!("{:?} in serial order {:?}", e.panics, o), replay: json!({"scenario": sc, "serial": o}) });
@@ -378,8 +379,9 @@ fn explore_scenario(root: &str, base: &Snapshot, sc: &Scenario, bound: Option<us
 		}
 	}
 	res.distinct_serial = serial_set.len();
-	let queue: Mutex<Vec<Vec<usize>>> = Mutex::new(vec![vec![]]);
-	let inflight = AtomicUsize::new(0);
+	// Iterative deviation bounding, level-synchronous and deterministic: level k holds every schedule
+	// with exactly k non-default choices. A level is run completely or not at all (its size is known
+	// when the previous level has finished), so the explored set does not depend on timing.
 	let count = AtomicUsize::new(0);
 	let finals: Mutex<BTreeMap<u64, u64>> = Mutex::new(BTreeMap::new());
 	let findings: Mutex<Vec<Finding>> = Mutex::new(vec![]);
@@ -387,109 +389,86 @@ fn explore_scenario(root: &str, base: &Snapshot, sc: &Scenario, bound: Option<us
 	let cap: Mutex<Option<String>> = Mutex::new(None);
 	let maxp = AtomicUsize::new(0);
 	let sample: Mutex<Option<Value>> = Mutex::new(None);
-	let dirc = AtomicUsize::new(0);
-	std::thread::scope(|scope| {
-		for _ in 0..workers() {
-			scope.spawn(|| {
-				crate::node::thread_init();
-				let my = dirc.fetch_add(1, Ordering::SeqCst);
-				let dir = format!("{}/c20-{}-w{}", root, sc.name, my);
-				loop {
-					let job = {
-						let mut q = queue.lock().unwrap();
-						match q.pop() {
-							Some(j) => {
-								inflight.fetch_add(1, Ordering::SeqCst);
-								Some(j)
-							}
-							None => None,
-						}
-					};
-					let prefix = match job {
-						Some(p) => p,
-						None => {
-							if inflight.load(Ordering::SeqCst) == 0 {
-								break;
-							}
-							std::thread::sleep(Duration::from_millis(2));
-							continue;
-						}
-					};
-					let capped = start.elapsed() > wall || count.load(Ordering::SeqCst) as u64 >= max_schedules;
-					if capped {
-						*cap.lock().unwrap() = Some(format!("cap hit (wall {:?} / {} schedules): enumeration of this scenario is incomplete", wall, max_schedules));
-						inflight.fetch_sub(1, Ordering::SeqCst);
-						continue;
-					}
-					let e = run_schedule(&dir, base, sc, &prefix);
-					count.fetch_add(1, Ordering::SeqCst);
-					let log = e.log.as_ref().unwrap();
-					maxp.fetch_max(log.choices.len(), Ordering::SeqCst);
-					if let Some(err) = &log.error {
-						*machinery.lock().unwrap() = Some(format!("{} (scenario {}, prefix {:?})", err, sc.name, prefix));
-					}
-					// children: every alternative at every later point
-					{
-						let mut q = queue.lock().unwrap();
-						for i in prefix.len()..log.choices.len() {
-							let mut cost = log.preemptions_before[i];
-							if log.running_enabled[i] {
-								cost += 1;
-							}
-							if let Some(b) = bound {
-								if cost > b {
-									continue;
-								}
-							}
-							for alt in 1..log.enabled[i].len() {
-								let mut p: Vec<usize> = log.choices[..i].to_vec();
-								p.push(alt);
-								q.push(p);
-							}
-						}
-					}
-					let h = hash_value(&e.proj);
-					*finals.lock().unwrap().entry(h).or_insert(0) += 1;
-					let replay = json!({"scenario": sc, "schedule": log.choices});
-					if log.deadlock {
-						findings.lock().unwrap().push(Finding { key: format!("C20/deadlock/{}", sc.name), what: format!("no enabled thread with unfinished threads under schedule {:?}", log.choices), replay: replay.clone() });
-					}
-					for p in e.panics.iter() {
-						findings.lock().unwrap().push(Finding { key: format!("C20/panic/{}", sc.name), what: format!("{} under schedule {:?}", p, log.choices), replay: replay.clone() });
-					}
-					if !log.deadlock && log.error.is_none() && !serial_set.iter().any(|x| x.0 == h) {
-						// nearest serial state for the explanation
-						let mut best: Option<(usize, Vec<String>, &Vec<Unit>)> = None;
-						for (_, se, o) in serial_set.iter() {
-							let d = diff(&e.proj, &se.proj);
-							if best.as_ref().map(|b| d.len() < b.0).unwrap_or(true) {
-								best = Some((d.len(), d, o));
-							}
-						}
-						let (_, d, o) = best.unwrap();
-						let nearest = serial_set.iter().find(|x| std::ptr::eq(x.2, o)).unwrap().1;
-						let key = format!("C20/non-serializable/{}/{}", sc.name, diff_signature(&e.proj, &nearest.proj));
-						let mut fl = findings.lock().unwrap();
-						let shorter = fl.iter().position(|f| f.key == key && f.replay["schedule"].as_array().unwrap().iter().filter(|c| c.as_u64() != Some(0)).count() > log.choices.iter().filter(|c| **c != 0).count());
-						if let Some(i) = shorter {
-							fl.remove(i);
-						}
-						if !fl.iter().any(|f| f.key == key) {
-							fl.push(Finding {
-								key,
-								what: format!("final wallet state under schedule {:?} (outcomes {:?}) equals no serial order; nearest is {:?}, from which it differs in: {}", log.choices, e.labels, o, d.join("; ")),
-								replay,
-							});
-						}
-					} else if sample.lock().unwrap().is_none() && log.choices.iter().any(|c| *c != 0) {
-						*sample.lock().unwrap() = Some(json!({"scenario": sc.name, "schedule": log.choices, "enabled_at_each_point": log.enabled, "outcomes": e.labels}));
-					}
-					inflight.fetch_sub(1, Ordering::SeqCst);
-				}
-				let _ = std::fs::remove_dir_all(&dir);
-			});
+	let mut level: Vec<Vec<usize>> = vec![vec![]];
+	let mut depth = 0usize;
+	let mut completed_level: Option<usize> = None;
+	loop {
+		if level.is_empty() {
+			break;
 		}
-	});
+		if let Some(bd) = bound {
+			if depth > bd {
+				*cap.lock().unwrap() = Some(format!("deviation bound {} reached: {} schedules of level {} not run", bd, level.len(), depth));
+				break;
+			}
+		}
+		if count.load(Ordering::SeqCst) as u64 + level.len() as u64 > max_schedules {
+			*cap.lock().unwrap() = Some(format!("schedule budget {}: level {} ({} schedules) not run; levels 0..{} complete", max_schedules, depth, level.len(), depth.saturating_sub(1)));
+			break;
+		}
+		if start.elapsed() > wall {
+			*cap.lock().unwrap() = Some(format!("wall cap {:?}: level {} ({} schedules) not run", wall, depth, level.len()));
+			break;
+		}
+		let results: Vec<(Vec<Vec<usize>>, ())> = par_map(&level, workers(), |wi, prefix| {
+			let dir = format!("{}/c20-{}-w{:?}", root, sc.name, std::thread::current().id()).replace("ThreadId(", "").replace(")", "");
+			let _ = wi;
+			let e = run_schedule(&dir, base, sc, prefix);
+			count.fetch_add(1, Ordering::SeqCst);
+			let log = e.log.as_ref().unwrap();
+			maxp.fetch_max(log.choices.len(), Ordering::SeqCst);
+			if let Some(err) = &log.error {
+				*machinery.lock().unwrap() = Some(format!("{} (scenario {}, prefix {:?})", err, sc.name, prefix));
+			}
+			// children: one more deviation at any later point
+			let mut children = vec![];
+			for i in prefix.len()..log.choices.len() {
+				for alt in 1..log.enabled[i].len() {
+					let mut p: Vec<usize> = log.choices[..i].to_vec();
+					p.push(alt);
+					children.push(p);
+				}
+			}
+			let h = hash_value(&e.proj);
+			*finals.lock().unwrap().entry(h).or_insert(0) += 1;
+			let replay = json!({"scenario": sc, "schedule": log.choices});
+			if log.deadlock {
+				findings.lock().unwrap().push(Finding { key: format!("C20/deadlock/{}", sc.name), what: format!("no enabled thread with unfinished threads under schedule {:?}", log.choices), replay: replay.clone() });
+			}
+			for p in e.panics.iter() {
+				findings.lock().unwrap().push(Finding { key: format!("C20/panic/{}", sc.name), what: format!("{} under schedule {:?}", p, log.choices), replay: replay.clone() });
+			}
+			if !log.deadlock && log.error.is_none() && !serial_set.iter().any(|x| x.0 == h) {
+				let mut best: Option<(usize, Vec<String>, &Vec<Unit>)> = None;
+				for (_, se, o) in serial_set.iter() {
+					let d = diff(&e.proj, &se.proj);
+					if best.as_ref().map(|b| d.len() < b.0).unwrap_or(true) {
+						best = Some((d.len(), d, o));
+					}
+				}
+				let (_, d, o) = best.unwrap();
+				let nearest = serial_set.iter().find(|x| std::ptr::eq(x.2, o)).unwrap().1;
+				let key = format!("C20/non-serializable/{}/{}", sc.name, diff_signature(&e.proj, &nearest.proj));
+				findings.lock().unwrap().push(Finding {
+					key,
+					what: format!("final wallet state under schedule {:?} (outcomes {:?}) equals no serial order; nearest is {:?}, from which it differs in: {}", log.choices, e.labels, o, d.join("; ")),
+					replay,
+				});
+			} else if sample.lock().unwrap().is_none() && log.choices.iter().any(|c| *c != 0) {
+				*sample.lock().unwrap() = Some(json!({"scenario": sc.name, "schedule": log.choices, "enabled_at_each_point": log.enabled, "outcomes": e.labels}));
+			}
+			let _ = std::fs::remove_dir_all(&dir);
+			(children, ())
+		});
+		completed_level = Some(depth);
+		let mut next: Vec<Vec<usize>> = vec![];
+		for (children, _) in results {
+			next.extend(children);
+		}
+		level = next;
+		depth += 1;
+	}
+	res.completed_level = completed_level;
 	res.schedules = count.load(Ordering::SeqCst) as u64;
 	res.distinct_final = finals.lock().unwrap().len();
 	res.max_points = maxp.load(Ordering::SeqCst);
@@ -497,7 +476,11 @@ fn explore_scenario(root: &str, base: &Snapshot, sc: &Scenario, bound: Option<us
 	res.machinery = machinery.lock().unwrap().clone();
 	res.sample = sample.lock().unwrap().clone();
 	let mut fs = findings.lock().unwrap().clone();
-	fs.sort_by_key(|f| (f.key.clone(), f.replay["schedule"].as_array().map(|a| a.len()).unwrap_or(0)));
+	// per key keep the schedule with the fewest deviations, then the lexicographically smallest
+	fs.sort_by_key(|f| {
+		let sch: Vec<u64> = f.replay["schedule"].as_array().map(|a| a.iter().map(|x| x.as_u64().unwrap_or(0)).collect()).unwrap_or_default();
+		(f.key.clone(), sch.iter().filter(|c| **c != 0).count(), sch)
+	});
 	// replay-twice
 	for f in fs.into_iter() {
 		if res.findings.iter().any(|x| x.key == f.key) {
@@ -562,6 +545,7 @@ pub fn replay(payload: &Value) -> i32 {
 	let e = run_schedule(&format!("{}/c20-replay", root), &base, &sc, &schedule);
 	let log = e.log.as_ref().unwrap();
 	println!("scenario {} schedule {:?}\noutcomes {:?}\ndeadlock {} error {:?} panics {:?}", sc.name, log.choices, e.labels, log.deadlock, log.error, e.panics);
+	println!("trace (thread 0 = refresher, 1.. = operations, last = events): {:?}", log.trace);
 	let h = hash_value(&e.proj);
 	let hit = serial.iter().zip(perms.iter()).find(|(s, _)| hash_value(&s.proj) == h);
 	match hit {
@@ -586,22 +570,27 @@ pub fn run(_args: &[String]) -> i32 {
 	let based = format!("{}/c20-base", root);
 	base_world(&based);
 	let base = Snapshot::capture(&based);
-	let scs = scenarios(thorough);
+	let mut scs = scenarios(thorough);
+	if let Ok(f) = std::env::var("GWV_C20_SCENARIO") {
+		// development aid: restrict to scenarios whose name contains the given text
+		scs = scenarios(true).into_iter().filter(|s| s.name.contains(&f)).collect();
+	}
 	let mut total = 0u64;
 	let mut per = serde_json::Map::new();
 	let mut mach = None;
 	let mut exhaustive = true;
 	let mut samples = vec![];
 	let mut distinct_total = 0usize;
-	let per_wall = Duration::from_secs(if thorough { 240 } else { 5 });
+	let per_wall = Duration::from_secs(std::env::var("GWV_C20_WALL").ok().and_then(|v| v.parse().ok()).unwrap_or(if thorough { 1500 } else { 60 }));
 	for sc in scs.iter() {
-		let r = explore_scenario(&root, &base, sc, if thorough { None } else { Some(2) }, per_wall, if thorough { 200_000 } else { 4_000 });
+		let budget: u64 = std::env::var("GWV_C20_BUDGET").ok().and_then(|v| v.parse().ok()).unwrap_or(if thorough { 40_000 } else { 450 });
+		let r = explore_scenario(&root, &base, sc, None, per_wall, budget);
 		total += r.schedules;
 		distinct_total += r.distinct_final;
 		if r.cap_hit.is_some() {
 			exhaustive = false;
 		}
-		per.insert(sc.name.clone(), json!({"schedules": r.schedules, "serial_orders": r.serial_orders, "distinct_serial_outcomes": r.distinct_serial, "distinct_final_states": r.distinct_final, "max_scheduling_points": r.max_points, "cap_hit": r.cap_hit}));
+		per.insert(sc.name.clone(), json!({"schedules": r.schedules, "serial_orders": r.serial_orders, "distinct_serial_outcomes": r.distinct_serial, "distinct_final_states": r.distinct_final, "max_scheduling_points": r.max_points, "completed_deviation_level": r.completed_level, "cap_hit": r.cap_hit}));
 		for f in r.findings {
 			rep.add_finding(f);
 		}
@@ -621,11 +610,11 @@ pub fn run(_args: &[String]) -> i32 {
 	rep.cov("distinct_nontrivial", json!(distinct_total));
 	rep.cov("rule", json!("one execution = one complete schedule (choice at every wallet-lock / node-call scheduling point) of real threads; distinct_nontrivial = distinct final wallet projections summed over scenarios"));
 	rep.cov("exhaustive", json!(exhaustive));
-	rep.cov("preemption_bound", json!(if thorough { Value::Null } else { json!(2) }));
+	rep.cov("schedule_budget_per_scenario", json!(std::env::var("GWV_C20_BUDGET").ok().and_then(|v| v.parse::<u64>().ok()).unwrap_or(if thorough { 40_000 } else { 450 })));
 	rep.cov("scenarios", Value::Object(per));
 	rep.cov("samples", json!(samples));
 	rep.assume("granularity = wallet-mutex acquisitions and node calls; all shared wallet state is behind that one mutex");
-	rep.assume("quick explores every schedule with at most 2 preemptions (or up to the per-scenario cap); thorough has no preemption bound");
+	rep.assume("iterative deviation bounding: level k = all schedules with exactly k non-default scheduling choices; a level is run completely or not at all, within a per-scenario schedule budget (quick 450, thorough 40000); the completed level is reported per scenario");
 	if mach.is_none() && (total < 100 || distinct_total < scs.len() + 2) {
 		mach = Some(format!("vacuity guard: {} schedules, {} distinct final states", total, distinct_total));
 	}
